@@ -213,6 +213,19 @@ func C04(c *vf.Ctx) {
 			if w.NRPC() == 0 {
 				return
 			}
+			// server side: the handler has a call parked in the stalled transport when the context given to
+			// ServeOne is cancelled
+			if strings.HasPrefix(w.Last().App["sv"], "h:") && rng.Intn(2) == 0 {
+				a := []string{"send1", "send2", "reterr", "reterr", "closesend", "retnil", "recv"}[rng.Intn(7)]
+				if w.Step(sys.Stim{K: "hstep", A: a}) {
+					ts.mark(w, "before")
+					if w.Step(sys.Stim{K: "cancelsrv"}) {
+						ts.mark(w, "srvcancel")
+						ts.Notes["haction"] = a
+					}
+				}
+				return
+			}
 			// put a few more calls in flight on the latest RPC, then cancel it
 			r := w.NRPC()
 			for i := 0; i < 2; i++ {
@@ -248,6 +261,16 @@ func C04(c *vf.Ctx) {
 		},
 		mons: []func(*runView) []finding{monWire},
 		post: func(v *runView, ts *tailState) (out []finding) {
+			if sat, ok := ts.Marks["srvcancel"]; ok {
+				o := v.r.Lines[sat]
+				if parkedInDrpc(o.Obs.App["sv"]) {
+					out = append(out, finding{"C04", fmt.Sprintf("handler call (%s) still blocked inside drpc after the server context was cancelled (%s) [%s]", ts.Notes["haction"],
+						map[bool]string{true: "soft", false: "hard"}[v.r.Cfg.Soft], whereSig(o.Where)), sat, map[string]any{"where": o.Where}})
+				} else if strings.HasPrefix(o.Obs.App["sv"], "h:") && !o.Obs.HCtx && !v.r.Cfg.Soft {
+					out = append(out, finding{"C04", "handler's stream context not done after the server context was cancelled", sat, nil})
+				}
+				return out
+			}
 			at, ok := ts.Marks["cancel"]
 			if !ok {
 				return nil
